@@ -10,4 +10,6 @@ for id in "$@"; do
   echo "$out" | grep -E "^$id " | head -1
 done
 git -C /repo checkout -- .
+# rebuild the harness against the clean tree, so that no stale binary built from the patched sources is left behind
+(cd /verif/harness && CARGO_NET_OFFLINE=true cargo build --release --offline >/dev/null 2>&1)
 rm -f /verif/replays/*/found-*.json
